@@ -1,7 +1,8 @@
 (* C01 - Issuance round trip returns exactly the original claims and their paths. *)
 From Coq Require Import List String Ascii Bool Arith.
 Import ListNotations.
-Require Import SDJ.Json SDJ.Wire SDJ.Model2 SDJ.Out SDJ.Restore2 SDJ.ATree SDJ.T2c SDJ.T2h SDJ.T1e SDJ.T1j SDJ.Issuer1 SDJ.Issuer2 SDJ.T1k.
+Require Import SDJ.Json SDJ.Wire SDJ.Model2 SDJ.Out SDJ.Restore2 SDJ.ATree SDJ.T2c SDJ.T2h SDJ.T1e SDJ.T1j SDJ.Issuer1 SDJ.Issuer2 SDJ.T1k SDJ.T1m SDJ.Verify SDJ.T1p.
+From Coq Require Import ZArith.
 Local Open Scope string_scope.
 
 (* For every well-formed claims value C (key-sorted objects, no reserved names), every list of path strings
@@ -12,8 +13,8 @@ Local Open Scope string_scope.
    passes until no progress, duplicate and structure checks) with all disclosures succeeds, and stripping the
    bookkeeping from its result gives back exactly C.
    PARTIAL with respect to the property: (a) 'valid marking => mark_fold succeeds', (b) the path component
-   (one path per marked claim), (c) the post-processing of encode (decoys, top-level shuffle, _sd_alg, cnf)
-   and the JWT layer are carried by the correspondence run, not yet by this theorem. *)
+   (one path per marked claim) are carried by the correspondence run, not yet by a theorem. The
+   post-processing of encode and the entry points are covered by C01_encode_then_holder_verify below. *)
 Theorem C01_roundtrip_claims_partial :
   forall E (dec : string -> dec_result),
   (forall x y, ie_hash E x = ie_hash E y -> x = y) ->
@@ -35,3 +36,45 @@ Theorem C01_strip_is_projection :
     wf H enc t -> strip (view H enc R t) = proj H enc R t.
 Proof. exact strip_view. Qed.
 Print Assumptions C01_strip_is_projection.
+
+(* The entry points: Issuer::encode (disclosure fold, decoys when requested, shuffle of the top-level digest
+   list, _sd_alg, cnf, signing, serialisation with '~') followed by Holder::verify (split at '~', JWT decode,
+   _sd_alg check, complete restore_disclosures, removal of bookkeeping and _sd_alg).
+   For every claims object (key-sorted, no reserved names, no _sd_alg/cnf of its own), every non-empty path
+   list on which marking succeeds, distinct salt draws, any insertion positions, any decoy draws that are
+   distinct and collide with no digest of the token, any permutation as the shuffle, with or without decoys
+   and holder key; under the idealised primitives stated as hypotheses (injective hash, base64url/JSON
+   decode inverts encode and produces no '~', the JWT layer returns header and payload of what was signed,
+   signing succeeds with a '~'-free compact JWT):
+   encode succeeds, Holder::verify on its token succeeds and returns the issuer's header and EXACTLY the
+   original claims (plus the cnf member when a holder key was required). *)
+Theorem C01_encode_then_holder_verify :
+  forall (E : issue_env) (O : oracles),
+  (forall x y, ie_hash E x = ie_hash E y -> x = y) ->
+  (forall ps, o_dec O (ie_enc E ps) = DJson (JArr ps)) ->
+  o_hash O SHA256 = ie_hash E ->
+  (forall h p j, ie_sign E h p = Val j -> o_jwt O j = Val (h, p)) ->
+  (forall h p, exists j, ie_sign E h p = Val j /\ Split.contains Split.tilde j = false) ->
+  (forall ps, Split.contains Split.tilde (ie_enc E ps) = false) ->
+  (forall xs, Permutation.Permutation (ie_perm E xs) xs) ->
+  forall (ckvs : list (string * json)) (paths : list string) tks (t' : atree)
+         (max_decoys : option Z) (cnf : option json) (header : json),
+  jwf (JObj ckvs) -> ~ In "_sd_alg" (map fst ckvs) -> ~ In "cnf" (map fst ckvs) ->
+  NoDup (ie_salts E) -> paths <> [] -> split_paths paths = Some tks ->
+  T1j.mark_fold (ie_hash E) (ie_enc E) Issuer2.parse_index Issuer2.parse_usize (ie_pos E) (embed (JObj ckvs)) tks (ie_salts E) = Some t' ->
+  NoDup (decoys_used E max_decoys) ->
+  (forall g, In g (decoys_used E max_decoys) -> ~ In g (alldigs (ie_hash E) (ie_enc E) t')) ->
+  (match cnf with Some c => jwf c /\ S (aheight (embed c)) <= 129 | None => True end) ->
+  aheight t' <= 129 ->
+  exists token payload ds ps,
+    issue E (JObj ckvs) paths max_decoys cnf header = Val (token, payload, ds) /\
+    holder_verify O token = Val (header, match cnf with Some c => JObj (obj_insert "cnf" c ckvs) | None => JObj ckvs end, ps).
+Proof. exact encode_then_holder_verify. Qed.
+Print Assumptions C01_encode_then_holder_verify.
+
+(* the premises are satisfiable: marking a top-level claim, a nested claim and an array element succeeds *)
+Example C01_premises_nonvacuous :
+  exists t', T1j.mark_fold (fun x => x) (fun _ => "e") Issuer2.parse_index Issuer2.parse_usize (fun _ => 0)
+    (embed (JObj [("a", JNum "1"); ("b", JObj [("c", JArr [JStr "x"; JStr "y"])])]))
+    [(["b"; "c"], "1"); (["b"], "c"); ([], "a")] [JStr "s1"; JStr "s2"; JStr "s3"] = Some t' /\ aheight t' <= 129.
+Proof. eexists. split; [vm_compute; reflexivity|vm_compute; repeat constructor]. Qed.
